@@ -529,13 +529,13 @@ Lemma form_jalr_rs_imm i t0 trs ti pk rest raw rs z :
   parses_to (parse_inst i t0 (LTok trs :: LTok ti :: LTok pk :: rest, raw))
             (PJumpLinkR (sw i) (sw 1%N) (sw rs) (sw z) raw_default) (LTok pk :: rest).
 Proof. parses_tac. Qed.
-(* QUIRK: `jalr rs` reads the token after rs with get_any; when it is neither register, immediate nor
-   '(' (the newline, say) it is nevertheless CONSUMED *)
+(* `jalr rs`: the token after rs is looked at; when it is neither register, immediate nor '(' (the newline,
+   say) it is left unread (fix: it used to be consumed) *)
 Lemma form_jalr_rs i t0 trs nx rest raw rs :
   inst_kind i = KJumpLinkR -> tok_reg_val trs = Some rs ->
   tok_reg nx = None -> tok_imm nx = Ok None -> is_lparen nx = false ->
   parses_to (parse_inst i t0 (LTok trs :: LTok nx :: rest, raw))
-            (PJumpLinkR (sw i) (sw 1%N) (sw rs) (sw 0) raw_default) rest.
+            (PJumpLinkR (sw i) (sw 1%N) (sw rs) (sw 0) raw_default) (LTok nx :: rest).
 Proof. parses_tac. Qed.
 
 (* jal:  rd, label  |  label *)
@@ -665,13 +665,13 @@ Theorem jalr_paren_eq_rs_zero t0 t0' trd lp trs rp trd' trs' tz rest rest' raw r
              (parse_inst IJalr t0' (LTok trd' :: LTok trs' :: LTok tz :: rest', raw'))
              rest rest'.
 Proof. same_tac. Qed.
-(*     jalr rs  =  jalr ra, rs, 0     (nx, the token after rs, is consumed on the left) *)
+(*     jalr rs  =  jalr ra, rs, 0     (nx, the token after rs, stays unread) *)
 Theorem jalr_rs_eq_ra_rs_zero t0 t0' trs nx tra trs' tz rest rest' raw raw' rs :
   tok_reg_val trs = Some rs -> tok_reg nx = None -> tok_imm nx = Ok None -> is_lparen nx = false ->
   tok_reg_val tra = Some 1%N -> tok_reg_val trs' = Some rs -> tok_imm_val tz = Ok (Some 0) ->
   same_parse (parse_inst IJalr t0 (LTok trs :: LTok nx :: rest, raw))
              (parse_inst IJalr t0' (LTok tra :: LTok trs' :: LTok tz :: rest', raw'))
-             rest rest'.
+             (LTok nx :: rest) rest'.
 Proof. same_tac. Qed.
 (*     jalr rs, imm  =  jalr ra, rs, imm   (pk, the token after imm, is not '(' and stays unread) *)
 Theorem jalr_rs_imm_eq_ra_rs_imm t0 t0' trs ti pk tra trs' ti' rest rest' raw raw' rs z :
@@ -1345,12 +1345,12 @@ Example jalr_paren_eq_rs_zero_ex :
              (parse_inst IJalr (sym «"jalr"») ([LTok (sym «"x1"»); LTok (sym «"x5"»); LTok (sym «"zero"»); LTok nl], None))
              [LTok nl] [LTok nl].
 Proof. eapply jalr_paren_eq_rs_zero; reflexivity. Qed.
-(* the newline after `jalr t0` is consumed, the newline after `jalr ra, t0, 0` is not *)
+(* the newline after `jalr t0` stays unread, like the newline after `jalr ra, t0, 0` *)
 Example jalr_rs_eq_ra_rs_zero_ex :
   same_parse (parse_inst IJalr (sym «"jalr"») ([LTok (sym «"t0"»); LTok nl], None))
              (parse_inst IJalr (sym «"jalr"») ([LTok (sym «"ra"»); LTok (sym «"t0"»); LTok (sym «"0"»); LTok nl], None))
-             [] [LTok nl].
-Proof. eapply jalr_rs_eq_ra_rs_zero; reflexivity. Qed.
+             [LTok nl] [LTok nl].
+Proof. eapply jalr_rs_eq_ra_rs_zero with (rest := []); reflexivity. Qed.
 Example jalr_rs_imm_eq_ra_rs_imm_ex :
   same_parse (parse_inst IJalr (sym «"jalr"») ([LTok (sym «"t0"»); LTok (sym «"-4"»); LTok nl], None))
              (parse_inst IJalr (sym «"jalr"») ([LTok (sym «"ra"»); LTok (sym «"t0"»); LTok (sym «"-0x4"»); LTok nl], None))
@@ -1363,11 +1363,11 @@ Example jal_label_eq_ra_label_ex :
 Proof. eapply jal_label_eq_ra_label; reflexivity. Qed.
 
 (* QUIRKS, computed *)
-(* `jalr t0` swallows the newline; a following statement on the next line is still found, but the
-   raw range of the jalr node extends over the newline *)
-Example quirk_jalr_rs_consumes_next :
+(* `jalr t0` leaves the newline unread (fix: it used to swallow it, so that the raw range of the jalr node
+   extended over the newline, or over a trailing comment) *)
+Example jalr_rs_leaves_next :
   outcome (parse_inst IJalr (sym «"jalr"») ([LTok (sym «"t0"»); LTok nl; LTok (sym «"ret"»)], None))
-  = Some (PJumpLinkR (sw IJalr) (sw 1%N) (sw 5%N) (sw 0) raw_default, [LTok (sym «"ret"»)]) /\
+  = Some (PJumpLinkR (sw IJalr) (sw 1%N) (sw 5%N) (sw 0) raw_default, [LTok nl; LTok (sym «"ret"»)]) /\
   outcome (parse_inst IJalr (sym «"jalr"») ([LTok (sym «"ra"»); LTok (sym «"t0"»); LTok (sym «"0"»); LTok nl; LTok (sym «"ret"»)], None))
   = Some (PJumpLinkR (sw IJalr) (sw 1%N) (sw 5%N) (sw 0) raw_default, [LTok nl; LTok (sym «"ret"»)]).
 Proof. vm_compute. split; reflexivity. Qed.
